@@ -5,7 +5,10 @@
 //   c03_hash      real hash_to_field (SHA-256 output passed to the model)
 //   c03_validate  real DZKPValidator::validate / validate_record under TestWorld malicious contexts:
 //                 honest batches, and one helper deviating in exactly one recorded / transmitted bit
-// (c03_lagrange / c03_proof live in hooks/ipa_prf.rs: they need the private malicious_security module.)
+//   c03_order     real MaliciousDZKPValidator in validate_record mode, real honest multiplications whose
+//                 intermediates are pushed in a scripted order (per batch, per gate, per helper), then validate_record
+// (c03_lagrange / c03_proof live in hooks/ipa_prf.rs: they need the private malicious_security module;
+//  c03_store / c03_vstore live in hooks/dzkp_validator.rs: they dump the private block vectors.)
 use std::iter::zip;
 
 use bitvec::prelude::{BitVec, Lsb0};
